@@ -110,6 +110,16 @@ func (node *HTTPNode) ReadContext(ctx context.Context) ([]byte, error) {
 	return b, nil
 }
 
+func (node *HTTPNode) resolvedLocation() string {
+	return node.URL.String()
+}
+
+func (node *HTTPNode) setResolvedLocation(location string) {
+	if u, err := url.Parse(location); err == nil {
+		node.URL = u
+	}
+}
+
 func (node *HTTPNode) ResolveEntrypoint(entrypoint string) (string, error) {
 	ref, err := url.Parse(entrypoint)
 	if err != nil {
